@@ -28,6 +28,7 @@ package main
 import (
 	"fmt"
 	"os"
+	"path/filepath"
 	"sort"
 	"strings"
 
@@ -46,9 +47,23 @@ func main() {
 		replay(run, run.Args[1:])
 		return
 	}
-	sectionA(run, r.Fork(1))
-	sectionB(run, r.Fork(2))
-	sectionC(run, r.Fork(3))
+	// C17_SECTIONS=ABPDC (development aid): run only the named sections
+	want := func(x string) bool { v := os.Getenv("C17_SECTIONS"); return v == "" || strings.Contains(v, x) }
+	if want("A") {
+		sectionA(run, r.Fork(1))
+	}
+	if want("B") {
+		sectionB(run, r.Fork(2))
+	}
+	if want("P") {
+		sectionP(run)
+	}
+	if want("D") {
+		sectionD(run, r.Fork(4))
+	}
+	if want("C") {
+		sectionC(run, r.Fork(3))
+	}
 }
 
 func replay(run *hx.Run, args []string) {
@@ -72,6 +87,15 @@ func replay(run *hx.Run, args []string) {
 			panic(err)
 		}
 		out := runResponseCase(run, c, line)
+		fmt.Println(out)
+	case "gen":
+		c, err := parseGenLine(fields)
+		if err != nil {
+			panic(err)
+		}
+		exe, _ := os.Executable()
+		scratch, _ := filepath.Abs(filepath.Join(run.OutDir, "gen-scripts"))
+		out := runGenCase(run, exe, scratch, c, line)
 		fmt.Println(out)
 	}
 }
